@@ -338,4 +338,137 @@ theorem reconnect_live_core (e : Exec idOf nConn) (c : Nat)
     cases this
 
 end
+
+/-! ### a fair execution with real drops: connDrop → sockDead → pingFail → reconnectStart → reconnectOk, for ever -/
+
+def cycAct : Nat → Action
+  | 0 => .connDrop 0
+  | 1 => .sockDead 0
+  | 2 => .pingFail 0
+  | 3 => .reconnectStart 0
+  | _ => .reconnectOk 0
+
+def cycConn : Nat → Conn
+  | 0 => {}
+  | 1 => { reader := false }
+  | 2 => { reader := false, sockOk := false }
+  | 3 => { reader := false, sockOk := false, spawned := 1 }
+  | _ => { status := .connecting, reader := false, sockOk := false, loops := 1 }
+
+def cycSt (idOf : Nat → Id) : Nat → State
+  | 0 => init
+  | i + 1 => (step idOf 1 (cycSt idOf i) (cycAct (i % 5))).getD init
+
+theorem cyc_conn (idOf : Nat → Id) : ∀ i, ((cycSt idOf i).conn 0 = cycConn (i % 5)) ∧
+    (step idOf 1 (cycSt idOf i) (cycAct (i % 5))).isSome = true := by
+  intro i
+  induction i with
+  | zero => exact ⟨rfl, rfl⟩
+  | succ i ih =>
+    obtain ⟨hc, hs⟩ := ih
+    have hm : i % 5 = 0 ∨ i % 5 = 1 ∨ i % 5 = 2 ∨ i % 5 = 3 ∨ i % 5 = 4 := by omega
+    have key : ((cycSt idOf (i + 1)).conn 0 = cycConn ((i + 1) % 5)) := by
+      simp only [cycSt]
+      rcases hm with h | h | h | h | h <;>
+        (have h' : (i + 1) % 5 = (i % 5 + 1) % 5 := by omega
+         rw [h', h]
+         rw [h] at hc
+         simp only [cycAct, cycConn] at hc ⊢
+         simp [step, hc, set_apply, reconnectBody])
+    refine ⟨key, ?_⟩
+    have hm' : (i + 1) % 5 = 0 ∨ (i + 1) % 5 = 1 ∨ (i + 1) % 5 = 2 ∨ (i + 1) % 5 = 3 ∨ (i + 1) % 5 = 4 := by omega
+    rcases hm' with h | h | h | h | h <;>
+      (rw [h] at key
+       rw [h]
+       simp only [cycAct, cycConn] at key ⊢
+       simp [step, key])
+
+/-- the periodic execution -/
+def cycExec (idOf : Nat → Id) : Exec idOf 1 where
+  st := cycSt idOf
+  lab := fun i => cycAct (i % 5)
+  ok := by
+    intro i
+    have := (cyc_conn idOf i).2
+    simp only [cycSt]
+    cases h : step idOf 1 (cycSt idOf i) (cycAct (i % 5)) with
+    | none => rw [h] at this; cases this
+    | some s => rfl
+  start := ⟨[], rfl⟩
+
+
+theorem cyc_pc (idOf : Nat → Id) : ∀ i k, (cycSt idOf i).pc k = .start := by
+  intro i
+  induction i with
+  | zero => intro k; rfl
+  | succ i ih =>
+    intro k
+    have hs := (cyc_conn idOf i).2
+    simp only [cycSt]
+    cases h : step idOf 1 (cycSt idOf i) (cycAct (i % 5)) with
+    | none => rw [h] at hs; cases hs
+    | some s =>
+      simp only [Option.getD_some]
+      have hm : i % 5 = 0 ∨ i % 5 = 1 ∨ i % 5 = 2 ∨ i % 5 = 3 ∨ i % 5 = 4 := by omega
+      rcases hm with h' | h' | h' | h' | h' <;>
+        (rw [h'] at h
+         simp only [cycAct, step] at h
+         (repeat' split at h) <;> (try cases h) <;> simp [ih k])
+
+theorem exists_later_mod (i r : Nat) (hr : r < 5) : ∃ j, i ≤ j ∧ j % 5 = r :=
+  ⟨5 * (i + 1) + r, by omega, by omega⟩
+
+/-- the periodic execution meets all six fairness hypotheses of `reconnect_live`, and it is not the trivial one: the
+connection is dropped infinitely often, and both strong-fairness premises are true (the actions ARE enabled infinitely
+often and taken infinitely often) -/
+theorem cycExec_fair (idOf : Nat → Id) :
+    SockDies (cycExec idOf) 0 ∧ WeakFair (cycExec idOf) (.reconnectOk 0) ∧
+    (∀ k, WeakFair (cycExec idOf) (.writeFail k)) ∧ WeakFair (cycExec idOf) (.pingDone 0) ∧
+    StrongFair (cycExec idOf) (.reconnectStart 0) ∧ StrongFair (cycExec idOf) (.pingFail 0) ∧
+    (∀ i, ∃ j, i ≤ j ∧ (cycExec idOf).lab j = .connDrop 0) ∧
+    (∀ i, ∃ j, i ≤ j ∧ ¬ Healthy (((cycExec idOf).st j).conn 0)) ∧
+    (∀ i, ∃ j, i ≤ j ∧ (step idOf 1 ((cycExec idOf).st j) (.reconnectStart 0)).isSome = true) := by
+  refine ⟨?_, ?_, ?_, ?_, ?_, ?_, ?_, ?_, ?_⟩
+  · intro i
+    obtain ⟨j, hj, hm⟩ := exists_later_mod i 0 (by omega)
+    refine ⟨j, hj, ?_⟩
+    have := (cyc_conn idOf j).1
+    simp only [cycExec]
+    rw [this, hm]
+    simp [cycConn]
+  · intro i
+    obtain ⟨j, hj, hm⟩ := exists_later_mod i 4 (by omega)
+    exact ⟨j, hj, Or.inr (by simp [cycExec, hm, cycAct])⟩
+  · intro k i
+    refine ⟨i, Nat.le_refl i, Or.inl ?_⟩
+    simp [cycExec, step, cyc_pc idOf i k]
+  · intro i
+    refine ⟨i, Nat.le_refl i, Or.inl ?_⟩
+    have := (cyc_conn idOf i).1
+    have hm : i % 5 = 0 ∨ i % 5 = 1 ∨ i % 5 = 2 ∨ i % 5 = 3 ∨ i % 5 = 4 := by omega
+    simp only [cycExec, step]
+    rcases hm with h | h | h | h | h <;> (rw [h] at this; simp [this, cycConn])
+  · intro _ i
+    obtain ⟨j, hj, hm⟩ := exists_later_mod i 3 (by omega)
+    exact ⟨j, hj, by simp [cycExec, hm, cycAct]⟩
+  · intro _ i
+    obtain ⟨j, hj, hm⟩ := exists_later_mod i 2 (by omega)
+    exact ⟨j, hj, by simp [cycExec, hm, cycAct]⟩
+  · intro i
+    obtain ⟨j, hj, hm⟩ := exists_later_mod i 0 (by omega)
+    exact ⟨j, hj, by simp [cycExec, hm, cycAct]⟩
+  · intro i
+    obtain ⟨j, hj, hm⟩ := exists_later_mod i 1 (by omega)
+    refine ⟨j, hj, ?_⟩
+    have := (cyc_conn idOf j).1
+    simp only [cycExec]
+    rw [this, hm]
+    simp [cycConn, Healthy]
+  · intro i
+    obtain ⟨j, hj, hm⟩ := exists_later_mod i 3 (by omega)
+    refine ⟨j, hj, ?_⟩
+    have := (cyc_conn idOf j).1
+    rw [hm] at this
+    simp [cycExec, step, this, cycConn]
+
 end Tongo.ClientSM
